@@ -102,6 +102,31 @@ CsvRead(bytes, cf) ==
   IN IF cf.header /\ rows # <<>> THEN [names |-> rows[1].fields, recs |-> Tail(rows)]
      ELSE [names |-> <<>>, recs |-> rows]
 
+\* What a program sees that, between looking at the fields of a record, also does the other things that touch the
+\* reader and the record: a two-argument split($0, parts) (in this mode the string is read as one CSV row), a
+\* `getline var` (the text of the NEXT record goes to var; NR advances; the current record and its fields stay),
+\* `$0 = $0` and `$0 = var` (the assigned text is read as one CSV row and becomes the fields).  Only "plain" texts
+\* (no quote, CR or LF) are re-read here, for which reading the text as a row is beyond doubt what the record had.
+\* The view is a sequence of [what, nr, text, fields, notext]; the harness prints the same things in the same order.
+PlainText(t) == \A j \in 1..Len(t) : t[j] \notin {DQ, CR, LF}
+RECURSIVE DisturbedFrom(_, _)
+DisturbedFrom(recs, i) ==
+  IF i > Len(recs) THEN <<>>
+  ELSE LET r == recs[i]
+           hasNext == i + 1 <= Len(recs)
+           nr2 == IF hasNext THEN i + 1 ELSE i
+           E(w, nr, t, f, nt) == [what |-> w, nr |-> nr, text |-> t, fields |-> f, notext |-> nt]
+       IN <<E("record", i, r.text, r.fields, FALSE)>>
+          \o (IF PlainText(r.text) THEN <<E("pieces of split", i, <<>>, r.fields, TRUE)>> ELSE <<>>)
+          \o <<E("record after split", i, r.text, r.fields, FALSE)>>
+          \o (IF hasNext THEN <<E("text delivered by getline var", nr2, recs[i + 1].text, <<>>, FALSE)>> ELSE <<>>)
+          \o <<E("record after getline var", nr2, r.text, r.fields, FALSE)>>
+          \o (IF PlainText(r.text) THEN <<E("record after $0 = $0", nr2, r.text, r.fields, FALSE)>> ELSE <<>>)
+          \o (IF hasNext /\ PlainText(recs[i + 1].text)
+               THEN <<E("record after $0 = text of the next record", nr2, recs[i + 1].text, recs[i + 1].fields, FALSE)>> ELSE <<>>)
+          \o DisturbedFrom(recs, i + (IF hasNext THEN 2 ELSE 1))
+Disturbed(recs) == DisturbedFrom(recs, 1)
+
 \* The rows the intended scanner can deliver knowing only the first `d` bytes
 \* (and, if eof, that nothing follows): the byte-order mark is only decided
 \* when three bytes (or the end of input) are there.
